@@ -119,6 +119,22 @@ class BuiltinModelDumperGen(ModelDumperGen):
         )
         self._id_to_field: dict[str, OutputField] = {field.id: field for field in self._shape.fields}
         self._model_identity = model_identity
+        self._fields_compared_with_default = self._collect_fields_compared_with_default(self._name_layout.crown)
+
+    def _collect_fields_compared_with_default(self, crown: OutCrown) -> set[str]:
+        """Fields whose raw value must be kept because it is compared with the default by a sieve"""
+        if isinstance(crown, OutDictCrown):
+            result = set()
+            for key, sub_crown in crown.map.items():
+                if isinstance(sub_crown, OutFieldCrown):
+                    if key in crown.sieves and get_default_clause(crown.sieves[key]) is not None:
+                        result.add(sub_crown.id)
+                else:
+                    result |= self._collect_fields_compared_with_default(sub_crown)
+            return result
+        if isinstance(crown, OutListCrown):
+            return set().union(*map(self._collect_fields_compared_with_default, crown.map))
+        return set()
 
     def produce_code(self, closure_name: str) -> tuple[str, Mapping[str, object]]:
         body_builder = CodeBuilder()
@@ -226,29 +242,37 @@ class BuiltinModelDumperGen(ModelDumperGen):
         raw_access_expr = self._gen_access_expr(namespace, field)
         v_element_expr = self._get_trail_element_expr(namespace, field)
 
+        stmts = []
         if self._fields_dumpers[field.id] == as_is_stub:
-            on_access_ok_stmt = Template(on_access_ok).substitute(expr=raw_access_expr)
+            stmts.append(Template(on_access_ok).substitute(expr=raw_access_expr))
         else:
+            if field.id in self._fields_compared_with_default:
+                # the sieve compares the raw value (not the dumped one) with the default
+                stmts.append(f"{self._v_raw_field(field)} = {raw_access_expr}")
+                raw_access_expr = self._v_raw_field(field)
             dumper = self._v_dumper(field)
-            on_access_ok_stmt = Template(on_access_ok).substitute(expr=f"{dumper}({raw_access_expr})")
+            stmts.append(Template(on_access_ok).substitute(expr=f"{dumper}({raw_access_expr})"))
 
         if self._debug_trail == DebugTrail.ALL:
+            with builder("try:"):
+                for stmt in stmts:
+                    builder += stmt
             builder += f"""
-                try:
-                    {on_access_ok_stmt}
                 except Exception as e:
                     errors.append(append_trail(e, {v_element_expr}))
             """
         elif self._debug_trail == DebugTrail.FIRST:
+            with builder("try:"):
+                for stmt in stmts:
+                    builder += stmt
             builder += f"""
-                try:
-                    {on_access_ok_stmt}
                 except Exception as e:
                     append_trail(e, {v_element_expr})
                     raise
             """
         else:
-            builder += on_access_ok_stmt
+            for stmt in stmts:
+                builder += stmt
 
         builder.empty_line()
 
@@ -575,14 +599,26 @@ class BuiltinModelDumperGen(ModelDumperGen):
                     self._gen_dict_sieved_append(
                         state, crown.sieves[key], key,
                         element_expr=ElementExpr("value", can_inline=True),
+                        sub_crown=sub_crown,
                     )
                 else:
                     state.builder(f"{state.v_crown}[{key!r}] = value")
         else:
             element_expr = self._get_element_expr(state, key, sub_crown)
             self._gen_dict_sieved_append(
-                state, crown.sieves[key], key, element_expr,
+                state, crown.sieves[key], key, element_expr, sub_crown,
             )
+
+    def _get_sieve_input_expr(self, sieve: Sieve, element_expr: ElementExpr, sub_crown: OutCrown) -> str:
+        if (
+            isinstance(sub_crown, OutFieldCrown)
+            and get_default_clause(sieve) is not None
+            and self._fields_dumpers[sub_crown.id] != as_is_stub
+        ):
+            # "values that are equal to default are omitted": it is the field value
+            # that must be compared with the default, not its dumped representation
+            return self._v_raw_field(self._id_to_field[sub_crown.id])
+        return element_expr.expr
 
     def _gen_dict_sieved_append(
         self,
@@ -590,8 +626,11 @@ class BuiltinModelDumperGen(ModelDumperGen):
         sieve: Sieve,
         key: str,
         element_expr: ElementExpr,
+        sub_crown: OutCrown,
     ):
-        condition = self._get_sieve_condition(state, sieve, key, element_expr.expr)
+        condition = self._get_sieve_condition(
+            state, sieve, key, self._get_sieve_input_expr(sieve, element_expr, sub_crown),
+        )
         if element_expr.can_inline:
             state.builder += f"""
                 if {condition}:
